@@ -214,6 +214,8 @@ pub fn one(ctx: &mut Ctx, input: &str, ext_bits: u32, full_parse: bool) {
                 }
             }
         }
+        // front matter interpreted (labels of its diagnostics included) against the model of `process_frontmatter`
+        if crate::props::c06::has_front_matter(input) { let h = crate::util::hash64(input); crate::fm::fm_case(ctx, input, ext_bits, (h % 2) as u8, ((h / 2) % 4) as u8); }
         for conv in [Converter::empty(), Converter::bundled()] {
             let parser = CooklangParser::new(ext, conv);
             match guarded(|| parser.parse(input)) {
@@ -306,4 +308,5 @@ pub fn inputs(ctx: &mut Ctx, tag: u64, f: &mut dyn FnMut(&mut Ctx, &str, u32)) {
 pub fn run(ctx: &mut Ctx) {
     ctx.rule = "inputs: corpus, all strings of <=2 (quick) / <=3 (thorough) symbols of a 47-symbol token alphabet (multi-byte chars, CRLF, fences, comments), random token soups, structured random recipes with single-token mutations; all 256 raw extension patterns round-robin; per input: token stream through the hook (tiling), PullParser events (every span + every fragment), full parse with empty and bundled converter (labels, SourceReport::write with and without colour). non-trivial = more than Start/End events or any token; distinct = distinct request lines".into();
     inputs(ctx, 0xC04, &mut |ctx, s, e| one(ctx, s, e, true));
+    crate::fm::family(ctx, 0xC04);
 }
